@@ -55,7 +55,11 @@ func TestVerifInformerResync(t *testing.T) {
 			t.Fatal(err)
 		}
 		var otherCount int64
-		other.Informer().AddEventHandler(cache.ResourceEventHandlerFuncs{AddFunc: func(interface{}) { atomic.AddInt64(&otherCount, 1) }})
+		// objects reach it as adds (listed after the handler was registered) or as the replay of the cache (registered after the list)
+		other.Informer().AddEventHandler(cache.ResourceEventHandlerFuncs{
+			AddFunc:    func(interface{}) { atomic.AddInt64(&otherCount, 1) },
+			UpdateFunc: func(a, b interface{}) { atomic.AddInt64(&otherCount, 1) },
+		})
 		ri, err := f.Resource(infDefs[0].APIVersion(), infDefs[0].Resource)
 		if err != nil {
 			t.Fatal(err)
